@@ -11,6 +11,7 @@ import (
 	"os"
 	"path/filepath"
 	"runtime"
+	"runtime/debug"
 	"strconv"
 	"strings"
 	"sync"
@@ -194,7 +195,7 @@ func TestWorker(t *testing.T) {
 		st := time.Now()
 		keep := k%sampleEvery == 0
 		unguard := guard(sc, idx)
-		res := p.Execute(sc, keep)
+		res := safeExecute(p, sc, keep, replayDir)
 		unguard()
 		rec := &core.RunRecord{Idx: idx, Seed: rseed, Stats: res.Stats, WallMs: time.Since(st).Milliseconds()}
 		if keep {
@@ -269,4 +270,23 @@ func abridgeLog(log []string, n int) []string {
 	}
 	out := append([]string(nil), log[:n]...)
 	return append(out, fmt.Sprintf("... (%d more lines)", len(log)-n))
+}
+
+// safeExecute turns a panic of the harness itself (on the goroutine that executes the
+// scenario) into an infrastructure error of that run, with the stack and the scenario saved
+// for diagnosis, instead of losing the whole worker.
+func safeExecute(p core.Property, sc *core.Scenario, keep bool, replayDir string) (res *core.Result) {
+	defer func() {
+		if r := recover(); r != nil {
+			where := ""
+			if replayDir != "" {
+				if b, err := json.MarshalIndent(sc, "", " "); err == nil {
+					where = filepath.Join(replayDir, fmt.Sprintf("%s-%d-harness-panic.json", sc.Property, sc.Seed))
+					_ = os.WriteFile(where, b, 0o644)
+				}
+			}
+			res = &core.Result{Stats: core.NewStats(), Infra: fmt.Errorf("harness panic: %v (scenario saved as %s)\n%s", r, where, debug.Stack())}
+		}
+	}()
+	return p.Execute(sc, keep)
 }
